@@ -50,6 +50,9 @@ FAMILIES = {
     # the process dies at every write of a scan (removal batches, taint writes, cloud requests); restart; next scan
     "crash": fam(EnvOn=["ExtForce", "ExtTaint", "PodArrive", "Restart"], FaultOps=["crash"], MaxFaults=1, TaintKinds=["zero"],
                  cfg=dict(min=0, max=4), AsgMin0=0, AsgMax0=5, MaxPend=1, KC=1, KM=1, InitNodes=3, NodeIds=["a1", "a2", "a3"], emit=8),
+    # more nodes than max_nodes (an operator raised the desired capacity), tainted nodes that get pods (PreferNoSchedule), grace periods
+    "overmax": fam(EnvOn=["Tick", "PodArrive", "PodSchedule", "PodOnTainted", "PodFinish", "ExtTaint", "DesiredBump", "CloudLaunch", "Register"],
+                   TaintKinds=["now"], cfg=dict(min=0, max=2, soft=1, hard=3), AsgMin0=0, AsgMax0=3, MaxPend=1, KC=1, KM=1, InitNodes=2, NodeIds=["a1", "a2", "a3"]),
     # an operator edits the ASG bounds of a group whose min / max are configured (not discovered)
     "asgedit": fam(EnvOn=["Tick", "PodArrive", "PodFinish", "AsgEdit", "CloudLaunch", "Register"],
                    cfg=dict(min=0, max=2), AsgMin0=0, AsgMax0=3, AsgBoundsSet=[[0, 1], [0, 2], [0, 3], [0, 4]], MaxPend=3, InitNodes=1),
@@ -63,7 +66,9 @@ FAMILIES = {
 
 # "for every cluster state" families: every well-typed state over small value sets is an initial state, one scan from each
 FAMILIES["all_reap"] = fam(av=dict(minNodes=1, cordoned=[False, True], force=[False, True], nodel=[False, True], taint=[-1, -2, -3, 0, 1, 2, 3], run=[0, 1], extra=[0, 1], lost=[False, True]),
-                           FaultOps=["terminate", "delete"], MaxFaults=1, cfg=dict(min=0), KC=1, KM=1, AsgMin0=0)
+                           FaultOps=["terminate", "delete"], MaxFaults=1, cfg=dict(min=0), KC=4, KM=4, AsgMin0=0)
+FAMILIES["all_annot"] = fam(av=dict(minNodes=1, cordoned=[False], force=[False, True], nodel=[False, True], taint=[-1, 1, 2, 3], run=[0, 1], extra=[0], lost=[False]),
+                            FaultOps=[], MaxFaults=0, cfg=dict(min=0), KC=4, KM=4, AsgMin0=0, emit=1)
 FAMILIES["all_scale"] = fam(av=dict(minNodes=0, created=[3, 4], cordoned=[False, True], force=[False, True], taint=[-1, 0, 2], run=[0, 1, 2], pend=[0, 1, 3], extra=[0, 1], lock=[-1, 0, 1, 2], delta=[0, 1]),
                             FaultOps=["get", "update", "set_desired"], MaxFaults=1, cfg=dict(min=1, max=3), AsgMax0=4, MaxPend=3)
 FAMILIES["all_dry"] = fam(av=dict(minNodes=0, created=[3, 4], cordoned=[False, True], force=[False, True], taint=[-1, 0, 3], run=[0, 1, 2], pend=[0, 1, 3], extra=[0, 1], lock=[-1, 1]),
@@ -201,6 +206,7 @@ def multi(**kw):
 FAMILIES["multi"] = multi(EnvOn=["Tick", "PodArrive", "PodSchedule", "PodFinish", "ExtTaint", "ExtForce", "InstanceLost", "Restart"],
                           FaultOps=["list_pods", "list_nodes", "terminate", "update"], MaxFaults=1)
 TIER_OVERRIDES[("multi", "quick")] = dict(EnvOn=["Tick", "PodArrive", "PodSchedule", "PodFinish", "ExtTaint", "InstanceLost", "Restart"], NodeIdsOf={"a": ["a1"], "default": ["d1"]})
+FAMILIES["overmax"]["simulate"] = dict(quick=dict(num=8, depth=40), thorough=dict(num=120, depth=60))   # too large for BFS (> 7.8 M states in 10 min)
 FAMILIES["multi"]["simulate"] = dict(quick=dict(num=10, depth=30), thorough=dict(num=150, depth=40))
 FAMILIES["multidry"] = multi(EnvOn=["Tick", "PodArrive", "PodSchedule", "PodFinish", "ExtTaint", "ExtForce"], FaultOps=[], MaxFaults=0,
                              CfgOf={"a": dict(BASE_CFG, min=0, max=2, dry=True), "default": dict(BASE_CFG, min=0, max=2, lower=20, upper=40, up=70)})
